@@ -591,3 +591,119 @@ class ItemLEncodeAny:
                 and children_at(result, h, self._value, i))
 
     loops = {1: Loop(a=inv)}
+
+
+# =============================================================================================== ItemL.decode for ANY element count
+# The members are decoded by the recursive dispatcher Item.decode, which consumes its item from the shared PacketData buffer.
+# Here it is a call-out (every concrete item class is verified against the same shape above; the L class by this very
+# contract): the next object of a heap region of created items, which has consumed at least one byte from the front of the
+# buffer.  Positions are measured from the end: an item decoded when `before` bytes were left and `after` remain afterwards
+# occupies the bytes [total - before, total - after) of the packet.
+NEWITEMS = Region("new_items", AbsVar, g_left_before=Int, g_left_after=Int)
+
+
+class AbsItemFactory:
+    """ghost counter of the items created by Item.decode in this run (class-level call-out)"""
+
+
+@contract("secsgem.secs.item:Item.decode", "C14", name="MemberDecodeAbs")
+class MemberDecodeAbs:
+    """ASSUMED at the call site (the recursive dispatch; proved per item class by the decode contracts above and, for nested
+    lists, by ItemLDecodeAny itself): consumes one complete item (at least its header byte) from the front of the buffer and
+    returns a new item object; or raises."""
+
+    abstract = True
+    returns = Elem(NEWITEMS)
+    modifies = {"data._data": Bytes(), "data.g_made": Int}
+    may_raise = [Exception]
+
+    def requires(data):
+        return 0 <= data.g_made and data.g_made < region_size(data.g_region)
+
+    def ensures(data, old, result):
+        m = len(old.data._data) - len(data._data)
+        return (m >= 1 and forall(0, len(data._data), lambda t: data._data[t] == old.data._data[t + m])
+                and key_of(result) == old.data.g_made and data.g_made == old.data.g_made + 1
+                and result.g_left_before == len(old.data._data) and result.g_left_after == len(data._data))
+
+
+@contract("secsgem.secs.item:Item.__init__", "C14", name="ItemInitAbs14")
+class ItemInitAbs14:
+    """ASSUMED call-out (validation of the member list is ItemL.validate_value, covered by the API pass): the new item keeps
+    the list it was given."""
+
+    abstract = True
+    modifies = {"self._value": Same("value")}
+    may_raise = [Exception]
+
+
+@contract("secsgem.secs.item_l:ItemL.decode", "C14", name="ItemLDecodeAny")
+class ItemLDecodeAny:
+    """An L item announcing ANY number n of members (k = 1..3 length bytes): exactly n members are decoded, in order, the first
+    right after the header, each from where the previous one ended (the shared buffer is consumed front to back, nothing is
+    skipped or read twice), and the new list item holds exactly these n objects in this order; a member that fails to
+    decode makes the whole decode raise."""
+
+    cases = [(f"k{k}", {"k": k}) for k in (1, 2, 3)]
+    may_raise = [Exception]
+    uses = [MemberDecodeAbs, ItemInitAbs14]
+
+    def replay(case, name, model):
+        """Native demonstration: L items with 0, 1, 2, 3, 300, 70000 members (U1 numbers, texts, nested empty lists), encoded
+        by the independent reference encoder with k length bytes, decoded by the real Item API: the members read back."""
+        from spec import e5ref as R
+        k = case["k"]
+        failed = []
+        for n in (0, 1, 2, 3, 300, 70000):
+            if (k == 1 and n > 255) or (k == 2 and n > 65535):
+                continue
+            kids = [("U1", [j % 251]) if j % 3 == 0 else (("A", "x" * (j % 4)) if j % 3 == 1 else ("L", [])) for j in range(n)]
+            data = R.header(0, n, k) + b"".join(R.encode(c) for c in kids)
+            try:
+                item = IT.Item.decode(data)
+            except Exception as exc:
+                failed.append(f"L[{n}], k={k}: {type(exc).__name__}: {exc}"[:160])
+                continue
+            got = item.value
+            want = [c[1][0] if c[0] == "U1" else (c[1] if c[0] == "A" else []) for c in kids]
+            if len(got) != n or list(got) != want:
+                failed.append(f"L[{n}], k={k}: {len(got)} members read back, first difference at {next((i for i, (a, b) in enumerate(zip(got, want)) if a != b), min(len(got), len(want)))}")
+        if not failed:
+            return None
+        return {"status": "confirmed", "failed_clauses": failed[:6], "inputs": {"member_counts": [0, 1, 2, 3, 300, 70000], "length_bytes": k}}
+
+    def inputs(k):
+        return {"cls": Const(IL.ItemL), "data": Obj(PacketData, _data=Bytes(min_len=1), g_made=Int(0, None), g_region=NEWITEMS)}
+
+    def requires(data, case):
+        k = case["k"]
+        return (len(data._data) >= 1 + k and data._data[0] == k
+                and data.g_made + e5.uint_at(data._data, 1, k) <= region_size(data.g_region))
+
+    def raises():
+        return {}
+
+    def ensures(data, old, result, case):
+        k = case["k"]
+        total = len(old.data._data)
+        n = e5.uint_at(old.data._data, 1, k)
+        m0 = old.data.g_made
+        v = result._value
+        return {"member-count": len(v) == n,
+                "members-are-the-items-decoded-in-order": forall(0, n, lambda j: key_of(v[j]) == m0 + j),
+                "first-member-right-after-the-header": implies(n >= 1, lambda: v[0].g_left_before == total - 1 - k),
+                "members-back-to-back": forall(1, n, lambda j: v[j].g_left_before == v[j - 1].g_left_after),
+                "buffer-consumed-up-to-the-last-member": len(data._data) == (total - 1 - k if n == 0 else v[n - 1].g_left_after)}
+
+    def inv(data, old, acc, i, case):
+        k = case["k"]
+        total = len(old.data._data)
+        m0 = old.data.g_made
+        return (len(acc) == i and data.g_made == m0 + i
+                and forall(0, i, lambda j: key_of(acc[j]) == m0 + j)
+                and implies(i >= 1, lambda: acc[0].g_left_before == total - 1 - k)
+                and forall(1, i, lambda j: acc[j].g_left_before == acc[j - 1].g_left_after)
+                and len(data._data) == (total - 1 - k if i == 0 else acc[i - 1].g_left_after))
+
+    comprehensions = {1: Loop(a=inv, types={"acc": ElemList(NEWITEMS)},
+                              modifies=["data._data", "data.g_made", "region:new_items.g_left_before", "region:new_items.g_left_after"])}
